@@ -17,7 +17,7 @@ Open Scope list_scope.
 Theorem C18_barrier : forall pre ty kw rest s,
   barrier_guard pre ty kw rest = true ->
   group (statement_of (pre ++ (ty, kw) :: rest)) = Ok s ->
-  get_type s = Ok (upper kw).
+  get_type s = Ok (knorm kw).
 Proof.
   intros pre ty kw rest s Hg H.
   pose proof (barrier_guard_spec _ _ _ _ Hg) as (_ & Hty & _).
@@ -29,7 +29,7 @@ Print Assumptions C18_barrier.
 (* with totality of the grouping engine: the statement IS built and has the type *)
 Theorem C18_barrier_total : forall pre ty kw rest,
   barrier_guard pre ty kw rest = true ->
-  exists s, group (statement_of (pre ++ (ty, kw) :: rest)) = Ok s /\ get_type s = Ok (upper kw).
+  exists s, group (statement_of (pre ++ (ty, kw) :: rest)) = Ok s /\ get_type s = Ok (knorm kw).
 Proof.
   intros pre ty kw rest Hg. destruct (group_total (pre ++ (ty, kw) :: rest)) as (s & E).
   exists s. split; [exact E | eapply C18_barrier; eauto].
@@ -40,7 +40,7 @@ Print Assumptions C18_barrier_total.
 Theorem C18_barrier_upto : forall k pre ty kw rest s,
   barrier_guard pre ty kw rest = true ->
   group_upto k (statement_of (pre ++ (ty, kw) :: rest)) = Ok s ->
-  exists v l, s = Grp CStatement v l /\ leadsb kw l = true /\ get_type s = Ok (upper kw).
+  exists v l, s = Grp CStatement v l /\ leadsb kw l = true /\ get_type s = Ok (knorm kw).
 Proof.
   intros k pre ty kw rest s Hg H.
   pose proof (barrier_guard_spec _ _ _ _ Hg) as (_ & Hty & _).
@@ -150,7 +150,7 @@ Qed.
 Theorem C18_barrier_lexed : forall t pre ty kw rest,
   cur_lex t = Ok (pre ++ (ty, kw) :: rest) ->
   barrier_guard pre ty kw rest = true ->
-  exists s ss, cur_parse t = Ok (s :: ss) /\ get_type s = Ok (upper kw).
+  exists s ss, cur_parse t = Ok (s :: ss) /\ get_type s = Ok (knorm kw).
 Proof.
   intros t pre ty kw rest El Hg.
   pose proof (barrier_guard_spec _ _ _ _ Hg) as (Hp & Hty & _).
@@ -347,7 +347,7 @@ Theorem C18_barrier_text_cut : forall items w' a ty us rest_text rest_toks,
   us <> [] -> Forall unit_wf us ->
   cur_lex_go (Some 32%N) rest_text = Ok rest_toks ->
   tok_next_ok rest_toks = true -> cntA rest_toks <= 1 ->
-  typed_through_parse (flat_map ptext items ++ w' ++ utext us ++ rest_text) (upper w').
+  typed_through_parse (flat_map ptext items ++ w' ++ utext us ++ rest_text) (knorm w').
 Proof.
   intros items w' a ty us rest_text rest_toks Hit Hw Hcut Hmk Hty Hk Hus Hwf Hrest Hn Hc.
   eapply (C18_barrier_lexed _ (map ptok items) ty w' (utoks T_Whitespace T_Newline us ++ rest_toks)).
@@ -414,6 +414,10 @@ Proof.
   destruct it; cbn [plast1]; unfold lookbehinds; cbn [In]; auto.
 Qed.
 
+(* the 14 words contain no white space: Token.normalized is just the upper-cased word *)
+Lemma words_knorm : forallb (fun W => text_eqb (knorm W) (upper W)) dml_ddl_words = true.
+Proof. vm_compute. reflexivity. Qed.
+
 Lemma words_kw_ok : forallb kw_ok dml_ddl_words = true.
 Proof. vm_compute. reflexivity. Qed.
 
@@ -445,13 +449,17 @@ Proof.
   assert (Hp : In (plast None items) lookbehinds) by (apply plast_in; left; reflexivity).
   pose proof (cut_table_spec W _ u c HW Hp Hu Hc He) as Hcut.
   destruct (cut_sound _ W u c w' T Hcut HR) as (a & ty & Hm & Hmk & Hty).
-  rewrite (cur_Rcase_upper _ _ HR).
+  assert (Ek : upper W = knorm w').
+  { unfold knorm. rewrite <- (cur_Rcase_upper _ _ HR).
+    pose proof (forallb_In _ _ _ words_knorm HW) as Hk. cbv beta in Hk. apply text_eqb_eq in Hk.
+    symmetry. exact Hk. }
+  rewrite Ek.
   assert (Eu : utext1 u ++ c :: T = utext [u] ++ c :: T).
   { unfold utext. cbn [flat_map]. rewrite app_nil_r. reflexivity. }
   rewrite Eu. rewrite Eu in Hm.
   eapply (C18_barrier_text_cut items w' a ty [u] (c :: T) rest_toks); try eassumption.
   - intros ->. inversion HR; subst. pose proof (forallb_In _ _ _ words_nonempty HW) as Hk. discriminate Hk.
-  - unfold kw_ok. rewrite <- (cur_Rcase_upper _ _ HR). exact (forallb_In _ _ _ words_kw_ok HW).
+  - unfold kw_ok, knorm. rewrite <- (cur_Rcase_upper _ _ HR). exact (forallb_In _ _ _ words_kw_ok HW).
   - discriminate.
   - constructor; [apply sep_units_wf, Hu | constructor].
 Qed.
